@@ -18,6 +18,10 @@ def get_machine(name):
         from .machines.tables import TableMachine
 
         return TableMachine()
+    if name == "transform":
+        from .machines.transforms import TransformMachine
+
+        return TransformMachine()
     raise SystemExit(f"unknown machine {name!r}")
 
 
